@@ -66,6 +66,18 @@ def project_with_max_dist_rule(cx):
                       '(projection, (id, loc)) is flattened to (projection, id, loc) without mixing', where=cl.file)
 
 
+def surf_closest_to_rule(cx):
+    """shared with C16: the sign and the plane-mode value of a mesh deviation are taken against this normal - it is the FACE normal also on edges and vertices"""
+    M = 'geom3::mesh::Mesh'
+    MP = '(call TriMesh::project_local_point_and_get_location (field shape (param self)) (param point) (field is_solid (param self)))'
+    b = cx.fn(f'{M}::surf_closest_to')
+    if b:
+        r = cx.retval(b)
+        e = match('(call *SurfacePoint::new (field point (field 0 $p)) (unwrap (call Triangle::normal (call TriMesh::triangle (field shape (param self)) (field 0 (field 1 $p))))))', r)
+        cx.ob('EXPR', 'Mesh::surf_closest_to', e is not None and match(MP, e['p']) is not None,
+              'closest surface point: the projection point with the normal of the triangle whose id the SAME projection returned; solid flag = self.is_solid', where=b.file, found=r)
+
+
 def run(cx):
     for mod, C, S in (('geom2::curve2', 'Curve2', 'CurveStation2'), ('geom3::curve3', 'Curve3', 'CurveStation3')):
         PRJ = '(call Polyline::project_local_point_and_get_location (field line (param self)) (param test_point) false)'
@@ -85,12 +97,7 @@ def run(cx):
             cx.ob('EXPR', f'{C}::dist_to_point', ok, f'{C}: distance = dist(projection.point, query) of a non-solid projection of the query', where=b.file, found=r)
     M = 'geom3::mesh::Mesh'
     MP = '(call TriMesh::project_local_point_and_get_location (field shape (param self)) (param point) (field is_solid (param self)))'
-    b = cx.fn(f'{M}::surf_closest_to')
-    if b:
-        r = cx.retval(b)
-        e = match('(call *SurfacePoint::new (field point (field 0 $p)) (unwrap (call Triangle::normal (call TriMesh::triangle (field shape (param self)) (field 0 (field 1 $p))))))', r)
-        cx.ob('EXPR', 'Mesh::surf_closest_to', e is not None and match(MP, e['p']) is not None,
-              'closest surface point: the projection point with the normal of the triangle whose id the SAME projection returned; solid flag = self.is_solid', where=b.file, found=r)
+    surf_closest_to_rule(cx)
     b = cx.fn(f'{M}::point_closest_to')
     if b:
         cx.expect('EXPR', 'Mesh::point_closest_to', cx.retval(b), f'(field point (field 0 {MP}))', 'closest point = projection point with solid flag = self.is_solid', where=b.file)
